@@ -923,8 +923,10 @@ func (lr *libRun) c03Write(op LibOp, pts []model.Pt, now int64, pre, post []mode
 	}
 	// direct[a] = aligned intervals expected to be written directly in a
 	direct := make([]map[int64]float64, len(archs))
+	touchedAll := make([]map[int64]bool, len(archs)) // every routed interval, overwritten laps included
 	for a := range direct {
 		direct[a] = map[int64]float64{}
+		touchedAll[a] = map[int64]bool{}
 	}
 	if op.Op == "upd" {
 		t := pts[0].T
@@ -954,6 +956,7 @@ func (lr *libRun) c03Write(op LibOp, pts []model.Pt, now int64, pre, post []mode
 			tgt = model.SingleTarget(archs, t, now)
 		}
 		direct[tgt][model.Floor(t, archs[tgt].S)] = pts[0].V
+		touchedAll[tgt][model.Floor(t, archs[tgt].S)] = true
 	} else {
 		if callErr != nil {
 			e.Violate("C03.batch-error", "UpdatePointsForArchive(id=%d) failed: %v", op.ID, callErr)
@@ -970,8 +973,19 @@ func (lr *libRun) c03Write(op LibOp, pts []model.Pt, now int64, pre, post []mode
 			if len(sh) > 0 {
 				nsh++
 			}
-			for _, p := range sh { // time-then-supply order: last wins
-				direct[a][model.Floor(p.T, archs[a].S)] = p.V
+			// time-then-supply order: the last point falling into a physical
+			// slot wins (equal intervals and intervals one or more laps apart)
+			bySlot := map[int64]int64{}
+			for _, p := range sh {
+				I := model.Floor(p.T, archs[a].S)
+				k := model.FloorMod(I/archs[a].S, archs[a].N)
+				if old, ok := bySlot[k]; ok && old != I {
+					delete(direct[a], old)
+					e.Probe("batch-with-two-laps-of-one-slot")
+				}
+				bySlot[k] = I
+				direct[a][I] = p.V
+				touchedAll[a][I] = true
 			}
 		}
 		if nsh >= 3 {
@@ -990,7 +1004,7 @@ func (lr *libRun) c03Write(op LibOp, pts []model.Pt, now int64, pre, post []mode
 		for I, v := range m {
 			overlap := false
 			for f := 0; f < a; f++ {
-				for If := range direct[f] {
+				for If := range touchedAll[f] {
 					if model.Floor(If, archs[a].S) == I {
 						overlap = true
 					}
@@ -1026,7 +1040,7 @@ func (lr *libRun) c03Write(op LibOp, pts []model.Pt, now int64, pre, post []mode
 			allowed[I] = true
 		}
 		for f := 0; f < a; f++ {
-			for I := range direct[f] {
+			for I := range touchedAll[f] {
 				allowed[model.Floor(I, archs[a].S)] = true
 			}
 		}
